@@ -305,11 +305,32 @@ def run(prog, rep, tier):
         rep.violation(R186, hb.path + "|repeat", "signal handler: it never releases the temp-file registry lock, but a second signal runs it again and blocks on that lock while holding the channel registry; the main thread then blocks forever (Ctrl-C pressed twice hangs the program)")
     # (b) the join after the main loop must not be reached after an interrupt: an EXIT_EARLY test lies between the loop and the join
     if joins:
-        reads_after = [c for c in b.live_calls() if "RwLock::<bool>::read" in c.f and c.bb not in L]
+        # "after the loop": outside it and unable to get back into it (a test before the loop dominates the join trivially)
+        reads_after = [c for c in b.live_calls() if "RwLock::<bool>::read" in c.f and c.bb not in L and not (set(b.reachable(c.bb)) & set(L))]
         guarded = any(all(b.dominates(r.bb, j.bb) for j in joins) for r in reads_after)
         rep.examined(R186, PL + "|join-after-interrupt", sample={"flag_tests_after_loop": len(reads_after), "flag_test_dominates_join": guarded})
         if not guarded:
             rep.violation(R186, PL + "|join-after-interrupt", "processing_loop: after an interrupt the function can reach JoinHandle::join; a worker blocked on the temp-file registry lock (kept by the handler) never finishes, so the interrupted program hangs")
+
+    # ------------------------------------------------------------ R18.8 only the handler raises the interrupt flag
+    # Every `exit_early_check!()` returns without joining the workers.  That is safe only because the
+    # one writer of the flag, the signal handler, has already removed the listed temporary files.  Any
+    # other writer (e.g. "stop the run after a print error") makes those early returns leave files behind.
+    R188 = rep.rule("R18.8", "the interrupt flag is written only by the signal handler (whose sweep precedes it)")
+    writers = []
+    for wb in prog.bodies():
+        if not wb.path.startswith("s4::") or "_tests" in wb.path:
+            continue
+        for c in wb.live_calls():
+            if "RwLock::<bool>::write" in c.f or (c.d.endswith("RwLock::<T>::write") and "RwLock<bool>" in (c.callee.get("self") or "")):
+                writers.append((wb.path, c.line))
+    rep.examined(R188, "EXIT_EARLY|writers", sample={"writers": writers, "handler": hb.path})
+    if not writers:
+        raise CheckerError("R18.8: no writer of the interrupt flag found")
+    for wp, wl in writers:
+        if wp != hb.path:
+            rep.violation(R188, "EXIT_EARLY|writer|" + wp, "%s (line %d) sets the interrupt flag outside the signal handler; the early returns that test the flag skip the join of the worker threads on the assumption that the handler "
+                          "has already removed the temporary files, so this path ends the process with the files of still-running workers left behind" % (wp, wl))
 
     # ------------------------------------------------------------ R18.5
     inst = PL + "|handler-before-spawn"
